@@ -112,7 +112,10 @@ def only_fall_delay_left(before, after, allow_block_close):
         else:
             terms.append(l2.snap_equal(sb["blocks"], sa["blocks"]))
         for extra in sa["slots"][nb:]:
-            if extra[0] != ("delay",):
+            typ = extra[0]
+            detuned_delay = (typ[0] == "pulse" and typ[1][0] == "Constant" and typ[2][0] == "Constant"
+                             and not is_sym(typ[1][1][1]) and float(typ[1][1][1]) == 0.0)
+            if typ != ("delay",) and not detuned_delay:
                 return False
     return AND(*terms)
 
